@@ -1,4 +1,4 @@
-/* consts_probe.c -- compiled against /repo's CURRENT working tree on every run.
+/* consts/hostlist.c -- compiled against /repo's CURRENT working tree on every run.
  *
  * Built once per section (-DPROBE_xxx); each section #includes the real
  * source file / headers so that the C compiler evaluates the macros the
@@ -19,29 +19,6 @@ static void lean_str(const char *name, const char *s)
 }
 #define LEAN_NAT(name, v) printf("def %s : Nat := %lu\n", name, (unsigned long)(v))
 
-#ifdef PROBE_CBUF
-#include "src/pdsh/cbuf.c"
-void lsd_fatal_error(char *f, int l, char *m) { (void)f; (void)l; (void)m; }
-#ifdef WITH_LSD_NOMEM_ERROR_FUNC
-void *lsd_nomem_error(char *f, int l, char *m) { (void)f; (void)l; (void)m; return 0; }
-#endif
-int main(void)
-{
-    LEAN_NAT("CBUF_CHUNK", CBUF_CHUNK);
-    LEAN_NAT("CBUF_NO_DROP", CBUF_NO_DROP);
-    LEAN_NAT("CBUF_WRAP_ONCE", CBUF_WRAP_ONCE);
-    LEAN_NAT("CBUF_WRAP_MANY", CBUF_WRAP_MANY);
-    /* size of sentinel (+ magic cookies when assertions are compiled in) */
-    {
-        cbuf_t cb = cbuf_create(8, 8);
-        LEAN_NAT("CBUF_SIZE_META", cb->alloc - cb->size);
-        LEAN_NAT("CBUF_DEFAULT_MODE", cb->overwrite);
-    }
-    return 0;
-}
-#endif
-
-#ifdef PROBE_HOSTLIST
 #include "src/common/hostlist.c"
 void lsd_fatal_error(char *f, int l, char *m) { (void)f; (void)l; (void)m; }
 #ifdef WITH_LSD_NOMEM_ERROR_FUNC
@@ -66,23 +43,3 @@ int main(void)
     }
     return 0;
 }
-#endif
-
-#ifdef PROBE_DSH
-#include "config.h"
-#include "src/common/macros.h"
-#include "src/pdsh/dsh.h"
-#include "src/pdsh/opt.h"
-int main(void)
-{
-    LEAN_NAT("LINEBUFSIZE", LINEBUFSIZE);
-    LEAN_NAT("INTR_TIME", INTR_TIME);
-    LEAN_NAT("WDOG_POLL", WDOG_POLL);
-    LEAN_NAT("RC_FAILED", RC_FAILED);
-    lean_str("RC_MAGIC", RC_MAGIC);
-    LEAN_NAT("CONNECT_TIMEOUT", CONNECT_TIMEOUT);
-    LEAN_NAT("DFLT_FANOUT", DFLT_FANOUT);
-    LEAN_NAT("MAX_GENDATTR", MAX_GENDATTR);
-    return 0;
-}
-#endif
